@@ -3,6 +3,8 @@ import CoercionModel.Props.C01
 import CoercionModel.Props.C02
 import CoercionModel.Props.C05
 import CoercionModel.Props.C07
+import CoercionModel.Model.Skeletons
+import CoercionModel.Generated.F10
 set_option linter.unusedSimpArgs false
 /-
   C04 — Wait returns a terminal, quiescent, consistent and truthful final plan.
@@ -129,5 +131,13 @@ theorem sequences_shape (as : List MAction) : C01.seqShape (runSeqActs as).1 = t
 /-- quiescence (re-export): when ExecuteSequences is left no worker of the block remains -/
 theorem workers_joined (c : Sched.Cfg) (s s' : Sched.S) (hs : Sched.step c s .joined = some s') :
     s'.queued = 0 ∧ s'.running = 0 ∧ s'.exiting = 0 := (C02.joined_quiescent c s s' hs).2
+
+/-- the Go functions this property's model mirrors still have the shape the model was written against
+    (control-flow skeletons regenerated from /repo on every run, Model/Skeletons): examineChecks, examineBypasses, smEnd -/
+theorem facts_skeleton :
+    Generated.F10.examineChecks = Skeletons.examineChecks ∧
+    Generated.F10.examineBypasses = Skeletons.examineBypasses ∧
+    Generated.F10.smEnd = Skeletons.smEnd := by
+  decide
 
 end Coercion.C04
